@@ -115,7 +115,7 @@ func genC15(g GenCtx) interface{} {
 		}
 		sc.Readers = append(sc.Readers, ops)
 	}
-	sc.Sim = SimCfg{Strategy: randStrategy(rng, []string{"newCache>c.run", "runC15>func"}), PermuteMaps: true, MaxSteps: 300000, EstSteps: 1500}
+	sc.Sim = SimCfg{Strategy: randStrategy(rng, []string{"newCache>c.run", "runC15>func"}), PermuteMaps: true, MaxSteps: 100000, EstSteps: 1500}
 	sc.Sim.Strategy.StallPermille = 0
 	return sc
 }
